@@ -4,6 +4,9 @@ import (
 	"bytes"
 	"encoding/binary"
 	"fmt"
+	"io"
+	"os"
+	"runtime/pprof"
 	"strings"
 	"sync"
 	"time"
@@ -70,13 +73,23 @@ type k7Sess struct {
 	tag   uint16
 }
 
-func newK7(r *rng, nconn int) *k7Sess {
+func newK7(r *rng, nconn int) *k7Sess { return newK7w(r, nconn, false) }
+
+// newK7w: with chunked, the server writes its replies through a writer that splits every write
+// and yields in between.
+func newK7w(r *rng, nconn int, chunked bool) *k7Sess {
 	be := newBackend(&rng{s: r.next()}, 0, 0, false)
 	g := &gater{}
 	be.gate = g.hook
+	be.dirRoot = true
 	s := &k7Sess{be: be, g: g, srv: p9.NewServer(be)}
 	for i := 0; i < nconn; i++ {
-		s.conns = append(s.conns, newServerPeer(s.srv))
+		if chunked {
+			pt := &pert{r: &rng{s: r.next()}, on: true}
+			s.conns = append(s.conns, newServerPeerW(s.srv, func(w io.WriteCloser) io.WriteCloser { return &chunkWriter{WriteCloser: w, p: pt} }))
+		} else {
+			s.conns = append(s.conns, newServerPeer(s.srv))
+		}
 		s.call(i, 100, map[string]interface{}{"MSize": uint64(8192), "Version": "9P2000.L.Google.7"})
 		s.call(i, 104, map[string]interface{}{"fid": uint64(0), "Auth.Authenticationfid": uint64(0xffffffff)})
 	}
@@ -116,9 +129,12 @@ func (s *k7Sess) recvReply(conn int, d time.Duration) (uint16, uint8, uint32, bo
 // call = send + wait for the reply; returns reply type.
 func (s *k7Sess) call(conn int, t uint8, vals map[string]interface{}) uint8 {
 	s.send(conn, t, vals)
-	_, rt, _, ok := s.recvReply(conn, 10*time.Second)
+	_, rt, e, ok := s.recvReply(conn, 10*time.Second)
 	if !ok {
 		return 0
+	}
+	if rt == 7 && os.Getenv("K7DEBUG") != "" {
+		fmt.Fprintf(os.Stderr, "call t=%d vals=%v errno=%d\n", t, vals, e)
 	}
 	return rt
 }
@@ -196,82 +212,164 @@ var k7ops = []k7op{
 	{"statfsF", "StatFS", "none", "F", func(f map[string]uint64) (uint8, map[string]interface{}) {
 		return 8, map[string]interface{}{"fid": f["F"]}
 	}},
+	{"openF", "Open", "open", "F", func(f map[string]uint64) (uint8, map[string]interface{}) {
+		return 12, map[string]interface{}{"fid": f["F"], "Flags": uint64(0)}
+	}},
+	{"writeF", "WriteAt", "read", "F", func(f map[string]uint64) (uint8, map[string]interface{}) {
+		return 118, map[string]interface{}{"fid": f["Fo"], "Data": []byte("xy")}
+	}},
+	{"fsyncF", "FSync", "read", "F", func(f map[string]uint64) (uint8, map[string]interface{}) {
+		return 50, map[string]interface{}{"fid": f["Fo"]}
+	}},
+	{"readdirD", "Readdir", "read", "D", func(f map[string]uint64) (uint8, map[string]interface{}) {
+		return 40, map[string]interface{}{"Directory": f["Do"], "Count": uint64(512)}
+	}},
+	{"createD", "Create", "write", "D", func(f map[string]uint64) (uint8, map[string]interface{}) {
+		return 14, map[string]interface{}{"fid": f["Dc"], "Name": "n", "OpenFlags": uint64(2), "Permissions": uint64(0644)}
+	}},
+	{"mknodD", "Mknod", "write", "D", func(f map[string]uint64) (uint8, map[string]interface{}) {
+		return 18, map[string]interface{}{"Directory": f["D"], "Name": "k", "Mode": uint64(0644)}
+	}},
+	{"linkD", "Link", "write", "D", func(f map[string]uint64) (uint8, map[string]interface{}) {
+		return 70, map[string]interface{}{"Directory": f["D"], "Target": f["F"], "Name": "l"}
+	}},
+	{"removeF", "UnlinkAt", "remove", "F", func(f map[string]uint64) (uint8, map[string]interface{}) {
+		return 122, map[string]interface{}{"fid": f["F"]}
+	}},
+	{"renameF", "RenameAt", "global", "F", func(f map[string]uint64) (uint8, map[string]interface{}) {
+		return 20, map[string]interface{}{"fid": f["F"], "Directory": f["G"], "Name": "x"}
+	}},
+}
+
+// operations on F that the server refuses once F's path is gone (I4), and the per-fid exclusive
+// section an operation takes (Tlopen: the fid's openedMu)
+var k7fenced = map[string]bool{"setattrF": true, "openF": true, "removeF": true, "renameF": true}
+
+func k7excl(op k7op, conn int) string {
+	if op.class == "open" {
+		return fmt.Sprintf("open-c%d", conn)
+	}
+	return "-"
 }
 
 // runK7pair: for pairs of operations, hold the first inside the backend and see whether the
 // second can get inside as well.
 func runK7pair(r *rng, n int) {
+	// every ordered pair x {same connection, across connections}, starting at a random point
+	total := len(k7ops) * len(k7ops) * 2
+	start := r.intn(total)
+	type out struct {
+		line string
+		cls  string
+	}
+	outs := make([]out, n)
+	seeds := make([]uint64, n)
+	for i := range seeds {
+		seeds[i] = r.next()
+	}
+	var wg sync.WaitGroup
+	sem := make(chan struct{}, 12)
 	for i := 0; i < n; i++ {
-		a := k7ops[r.intn(len(k7ops))]
-		b := k7ops[r.intn(len(k7ops))]
-		cross := r.chance(1, 2) // second operation from another connection
-		s := newK7(r, 2)
-		// tree: root / d (D) / f (F);  root / g (G). Both connections bind the same paths.
-		fids := []map[string]uint64{{}, {}}
-		okPrep := true
-		for c := 0; c < 2; c++ {
-			fids[c]["D"], fids[c]["F"], fids[c]["Fo"], fids[c]["G"] = 1, 2, 3, 4
-			if s.walk(c, 0, 1, p9.ModeDirectory|0755, "d") < 0 || s.walk(c, 1, 2, p9.ModeRegular|0644, "f") < 0 ||
-				s.walk(c, 1, 3, p9.ModeRegular|0644, "f") < 0 || s.walk(c, 0, 4, p9.ModeDirectory|0755, "g") < 0 {
-				okPrep = false
-			}
-			if s.call(c, 12, map[string]interface{}{"fid": uint64(3), "Flags": uint64(0)}) != 13 {
-				okPrep = false
-			}
-		}
-		if !okPrep {
-			s.close()
-			continue
-		}
-		cb := 0
-		if cross {
-			cb = 1
-		}
-		ga := s.g.arm(a.meth, 0)
-		ta, va := a.build(fids[0])
-		s.send(0, ta, va)
-		if !ga.waitEntered(2 * time.Second) {
-			close(ga.release)
-			s.close()
-			continue
-		}
-		gb := s.g.arm(b.meth, 0)
-		tb, vb := b.build(fids[cb])
-		s.send(cb, tb, vb)
-		overlap := 0
-		if gb.waitEntered(40 * time.Millisecond) {
-			overlap = 1
-		}
-		close(ga.release)
-		entered := 1
-		if overlap == 0 && !gb.waitEntered(3*time.Second) {
-			entered = 0 // the second never reached the backend (refused or hung)
-		}
-		close(gb.release)
-		// both must be answered
-		answered := 0
-		if cb == 0 {
-			for k := 0; k < 2; k++ {
-				if _, _, _, ok := s.recvReply(0, 5*time.Second); ok {
-					answered++
+		wg.Add(1)
+		sem <- struct{}{}
+		go func(i int) {
+			defer wg.Done()
+			defer func() { <-sem }()
+			cr := &rng{s: seeds[i]}
+			idx := (start + i) % total
+			a := k7ops[idx/2/len(k7ops)]
+			b := k7ops[idx/2%len(k7ops)]
+			cross := idx%2 == 1
+			// "can overlap" is a possibility: a pair seen blocked is tried once more with a longer wait
+			res, ok := k7pairOnce(cr, a, b, cross, 40*time.Millisecond)
+			if ok && res[0] == 0 {
+				if res2, ok2 := k7pairOnce(cr, a, b, cross, 300*time.Millisecond); ok2 && res2[0] == 1 {
+					res = res2
 				}
 			}
-		} else {
+			if !ok {
+				return
+			}
+			c := 0
+			if cross {
+				c = 1
+			}
+			fb := 0
+			if k7fenced[b.name] {
+				fb = 1
+			}
+			outs[i] = out{fmt.Sprintf("k7pair a=%s ca=%s oa=%s xa=%s b=%s cb=%s ob=%s xb=%s fb=%d cross=%d => overlap=%d entered=%d answered=%d", a.name, a.class, a.on, k7excl(a, 0), b.name, b.class, b.on, k7excl(b, c), fb, c, res[0], res[1], res[2]), a.class + "/" + b.class}
+		}(i)
+	}
+	wg.Wait()
+	for _, o := range outs {
+		if o.line != "" {
+			count("pair:" + o.cls)
+			emit("%s", o.line)
+		}
+	}
+}
+
+func k7pairOnce(r *rng, a, b k7op, cross bool, wait time.Duration) ([3]int, bool) {
+	s := newK7(r, 2)
+	defer s.close()
+	// tree: root / d (D) / f (F);  root / g (G). Both connections bind the same paths.
+	fids := []map[string]uint64{{}, {}}
+	for c := 0; c < 2; c++ {
+		fids[c]["D"], fids[c]["F"], fids[c]["Fo"], fids[c]["G"], fids[c]["Do"], fids[c]["Dc"] = 1, 2, 3, 4, 5, 6
+		if s.walk(c, 0, 1, p9.ModeDirectory|0755, "d") < 0 || s.walk(c, 1, 2, p9.ModeRegular|0644, "f") < 0 ||
+			s.walk(c, 1, 3, p9.ModeRegular|0644, "f") < 0 || s.walk(c, 0, 4, p9.ModeDirectory|0755, "g") < 0 ||
+			s.walk(c, 0, 5, p9.ModeDirectory|0755, "d") < 0 || s.walk(c, 0, 6, p9.ModeDirectory|0755, "d") < 0 {
+			return [3]int{}, false
+		}
+		if s.call(c, 12, map[string]interface{}{"fid": uint64(3), "Flags": uint64(2)}) != 13 ||
+			s.call(c, 12, map[string]interface{}{"fid": uint64(5), "Flags": uint64(0)}) != 13 {
+			return [3]int{}, false
+		}
+	}
+	cb := 0
+	if cross {
+		cb = 1
+	}
+	ga := s.g.arm(a.meth, 0)
+	ta, va := a.build(fids[0])
+	s.send(0, ta, va)
+	if !ga.waitEntered(3 * time.Second) {
+		close(ga.release)
+		return [3]int{}, false
+	}
+	gb := s.g.arm(b.meth, 0)
+	tb, vb := b.build(fids[cb])
+	s.send(cb, tb, vb)
+	overlap := 0
+	if gb.waitEntered(wait) {
+		overlap = 1
+	} else if os.Getenv("K7DEBUG") == a.name+","+b.name {
+		pprof.Lookup("goroutine").WriteTo(os.Stderr, 2)
+	}
+	close(ga.release)
+	entered := 1
+	if overlap == 0 && !gb.waitEntered(3*time.Second) {
+		entered = 0 // the second never reached the backend (refused or hung)
+	}
+	close(gb.release)
+	// both must be answered
+	answered := 0
+	if cb == 0 {
+		for k := 0; k < 2; k++ {
 			if _, _, _, ok := s.recvReply(0, 5*time.Second); ok {
 				answered++
 			}
-			if _, _, _, ok := s.recvReply(1, 5*time.Second); ok {
-				answered++
-			}
 		}
-		s.close()
-		cr := 0
-		if cross {
-			cr = 1
+	} else {
+		if _, _, _, ok := s.recvReply(0, 5*time.Second); ok {
+			answered++
 		}
-		count("pair:" + a.class + "/" + b.class)
-		emit("k7pair a=%s ca=%s oa=%s b=%s cb=%s ob=%s cross=%d => overlap=%d entered=%d answered=%d", a.name, a.class, a.on, b.name, b.class, b.on, cr, overlap, entered, answered)
+		if _, _, _, ok := s.recvReply(1, 5*time.Second); ok {
+			answered++
+		}
 	}
+	return [3]int{overlap, entered, answered}, true
 }
 
 // ---- K7 flush -----------------------------------------------------------------------------------
@@ -316,10 +414,15 @@ func runK7flush(r *rng, n int) {
 		other := s.send(0, 24, map[string]interface{}{"fid": uint64(2)})
 		got := map[uint16]uint8{}
 		early := 0
-		deadline := time.Now().Add(150 * time.Millisecond)
+		// the three requests that must be answered at once, then a further window in which nothing
+		// concerning the gated request may arrive
+		deadline := time.Now().Add(5 * time.Second)
 		for time.Now().Before(deadline) {
-			tag, rt, _, ok := s.recvReply(0, 60*time.Millisecond)
+			tag, rt, _, ok := s.recvReply(0, 80*time.Millisecond)
 			if !ok {
+				if got[idleTag] != 0 && got[ownTag] != 0 && got[other] != 0 {
+					break
+				}
 				continue
 			}
 			got[tag] = rt
@@ -371,7 +474,7 @@ func runK7flush(r *rng, n int) {
 
 func runK7tags(r *rng, n int) {
 	for i := 0; i < n; i++ {
-		s := newK7(r, 1)
+		s := newK7w(r, 1, r.chance(2, 3))
 		for f := uint64(1); f <= 4; f++ {
 			s.walk(0, 0, f, p9.ModeRegular|0644, fmt.Sprintf("f%d", f))
 		}
@@ -400,8 +503,9 @@ func runK7tags(r *rng, n int) {
 			stream = append(stream, s.frame(t, tag, v)...)
 		}
 		go s.conns[0].write(stream)
+		delay := time.Duration(r.intn(20)) * time.Millisecond
 		go func() {
-			time.Sleep(time.Duration(r.intn(20)) * time.Millisecond)
+			time.Sleep(delay)
 			for _, g := range gates {
 				close(g.release)
 			}
@@ -447,6 +551,43 @@ func runK7tags(r *rng, n int) {
 	}
 }
 
+// runK7reuse: a request whose tag is still in flight is not served; the tag is free after its reply.
+func runK7reuse(r *rng, n int) {
+	for i := 0; i < n; i++ {
+		s := newK7(r, 1)
+		s.walk(0, 0, 1, p9.ModeRegular|0644, "a")
+		g := s.g.arm("GetAttr", 0)
+		fr := s.frame(24, 7, map[string]interface{}{"fid": uint64(1)})
+		s.conns[0].write(fr)
+		g.waitEntered(2 * time.Second)
+		s.conns[0].write(fr) // same tag while in flight
+		during := 0
+		if _, _, _, ok := s.recvReply(0, 80*time.Millisecond); ok {
+			during++
+		}
+		close(g.release)
+		total := during
+		first := 0
+		if tag, rt, _, ok := s.recvReply(0, 3*time.Second); ok && tag == 7 && rt == 25 {
+			first = 1
+			total++
+		}
+		second := 0
+		if _, _, _, ok := s.recvReply(0, 80*time.Millisecond); ok {
+			second = 1
+			total++
+		}
+		s.conns[0].write(fr) // immediate re-use after the reply
+		third := 0
+		if tag, rt, _, ok := s.recvReply(0, 3*time.Second); ok && tag == 7 && rt == 25 {
+			third = 1
+			total++
+		}
+		s.close()
+		emit("k7reuse => during=%d first=%d second=%d third=%d total=%d", during, first, second, third, total)
+	}
+}
+
 // ---- deterministic replays of the concurrency defects (regression scenarios) ----------------
 
 // runK7scen: D9 (rename in one directory while the last other reference goes away), D13 (a Close
@@ -462,10 +603,13 @@ func runK7scen(r *rng, n int) {
 			s.send(0, 120, map[string]interface{}{"fid": uint64(1)})
 			okE := g.waitEntered(2 * time.Second)
 			tg := s.send(0, 24, map[string]interface{}{"fid": uint64(2)})
-			tag, rt, _, ok := s.recvReply(0, 1500*time.Millisecond)
+			tag, rt, _, ok := s.recvReply(0, 4*time.Second)
 			prog := 0
 			if okE && ok && tag == tg && rt == 25 {
 				prog = 1
+			} else if os.Getenv("K7DEBUG") == "close" {
+				fmt.Fprintf(os.Stderr, "okE=%v ok=%v tag=%d tg=%d rt=%d\n", okE, ok, tag, tg, rt)
+				pprof.Lookup("goroutine").WriteTo(os.Stderr, 2)
 			}
 			close(g.release)
 			s.recvReply(0, 3*time.Second)
